@@ -158,7 +158,7 @@ def build_evaluator():
     Cached by the hash of every source involved."""
     srcs = [os.path.join(C.COQ, "Lib", "Bytes.v"), os.path.join(C.COQ, "Model", "Lexer.v"),
             os.path.join(C.COQ, "Model", "DenseGen.v"), os.path.join(C.COQ, "Model", "C02Check.v"),
-            os.path.join(C.COQ, "Model", "Precedence.v"),
+            os.path.join(C.COQ, "Model", "Precedence.v"), os.path.join(C.COQ, "Model", "C02Spec.v"),
             T.GENERATED_V, os.path.join(C.COQ, "Extract", "C02Extract.v"),
             os.path.join(C.ROOT, "vlib", "c02_driver.ml")]
     h = C.hashlib.sha256()
@@ -264,6 +264,10 @@ def run_stream(ctx, name, rows, exe, vm_sample):
         elif "INTENT" in diag:
             ctx.violation("dense output does not lex to the tokens the generator pushed", replay,
                           key="intent:%s:%d" % (r["ref"][:80], r["span"]))
+        elif "HYP" in diag and "MODEL" not in diag:
+            ctx.violation("a junction of the real push list is not safe under the dumped tables (stream_ok is false: theorem "
+                          "no_fusion does not cover this list) although the text lexes correctly at the tried spans", replay,
+                          key="hyp:%s" % r["ref"][:80], found_input=False)
         else:
             model_only.append((r, diag))
     for r in reparse_bad[:3]:
